@@ -13,4 +13,4 @@ Extraction "model.ml"
   to_chunks_spec from_chunks_spec chunk_count to_chunks_asis to_chunks_before_fix from_chunks_asis
   debug_spec debug_asis gen_dbg_lits ilog_exact fmt_tables_asis fmt_words_asis body_words_asis
   dw_text trait_id trait_lookup gen_fmt_traits case_offset inradix_case from_chunks_words_z
-  to_chunks_words_z debug_lwb_asis est_under digits_gen body_gen.
+  to_chunks_words_z debug_lwb_asis est_under digits_gen body_gen format_prepared_gen kind_prefix.
